@@ -13,6 +13,7 @@
 #include "storage.h"
 #include "features.h"
 #include "lang.h"
+#include "c16_gen.h"
 
 #define NS 8   /* size of the symbolic normalised string the stub delivers */
 
@@ -160,6 +161,8 @@ static void p5_common(bool explicit_lang) {
      * wiped as whole objects through the injected function on every exit */
     VASSERT(wipes_whole(sizeof(polyseed_str)) >= 1, "P5 phrase copy wiped on every exit");
     VASSERT(wipes_whole(sizeof(polyseed_phrase)) >= 2 || sizeof(polyseed_phrase) != sizeof(gf_poly), "P5 token array and polynomial wiped on every exit");
+    if (explicit_lang) C16_CHECK(polyseed_decode_explicit, "C16 every temporary aggregate of polyseed_decode_explicit is wiped as a whole object on every exit");
+    else C16_CHECK(polyseed_decode, "C16 every temporary aggregate of polyseed_decode is wiped as a whole object on every exit");
     VASSERT(L_rand_calls == 0 && L_time_calls == 0 && L_kdf_calls == 0 && L_nfc_calls == 0, "P5 no other dependency");
     /* frame */
     VASSERT(dep_table_intact(), "FRAME dependency table unchanged");
